@@ -44,14 +44,17 @@ def cmdVal (c : Ctx) (hasInsert : Bool) (k : Str) (v : J) : J :=
 
 def redactCommand (c : Ctx) (cmd : List (Str Ã— J)) : List (Str Ã— J) :=
   let hasInsert := (lookup sInsert cmd).isSome
-  cmd.map fun (k, v) => (k, c.cmdVal hasInsert k v)
+  cmd.map fun p => (p.1, c.cmdVal hasInsert p.1 p.2)
 
-/-- `redactNamespace`: string values of the searched fields become pseudonyms -/
+/-- value of field `k` after `redactNamespace`: string values of the searched fields become pseudonyms -/
+def nsVal (c : Ctx) (k : Str) (v : J) : J :=
+  match v with
+  | .str s => if c.T.searchedFields.contains k then .str (c.H s) else v
+  | _ => v
+
+/-- `redactNamespace` -/
 def redactNamespace (c : Ctx) (cmd : List (Str Ã— J)) : List (Str Ã— J) :=
-  cmd.map fun (k, v) =>
-    match v with
-    | .str s => if c.T.searchedFields.contains k then (k, .str (c.H s)) else (k, v)
-    | _ => (k, v)
+  cmd.map fun p => (p.1, c.nsVal p.1 p.2)
 
 /-- one of attr.originatingCommand / attr.cmd / attr.command -/
 def cmdDoc (c : Ctx) (v : J) : J :=
@@ -91,7 +94,7 @@ def redactAttrWith (cd : Ctx â†’ J â†’ J) (T : Tables) (cfg : Cfg) (plan : Str â
     if isGated then
       let eager := cfg.eager.any fun p => isPrefix p (strOrEmpty (lookup sNs a1))
       let c : Ctx := { T := T, cfg := cfg, rfn := eager }
-      let a := a1.map fun (k, v) => if cmdKeys.contains k then (k, cd c v) else (k, v)
+      let a := a1.map fun p => (p.1, if cmdKeys.contains p.1 then cd c p.2 else p.2)
       if eager then mapKey sPlanSummary (fun v => match v with | .str s => .str (plan cfg.repl s) | x => x) a
       else a
     else a1
